@@ -341,9 +341,9 @@ type c07Scenario struct {
 	name      string
 	kinds     []drv.Kind
 	versioned bool
-	upload    bool          // setup initiates an upload on key k
-	setupOps  []cOp         // sequential setup (puts / parts)
-	noBucket  bool          // start without the bucket
+	upload    bool  // setup initiates an upload on key k
+	setupOps  []cOp // sequential setup (puts / parts)
+	noBucket  bool  // start without the bucket
 	threads   [][]cOp
 	final     []cOp
 }
@@ -720,16 +720,16 @@ func c07Outcome(x *engine.Execution) string {
 }
 
 type c07JobResult struct {
-	Scenario   string           `json:"scenario"`
-	World      string           `json:"world"`
-	Executions int64            `json:"executions"`
-	Points     int64            `json:"points"`
-	MaxPoints  int              `json:"max_points"`
-	Outcomes   int              `json:"distinct_outcomes"`
-	BoundDone  int              `json:"bound_completed"`
-	Capped     bool             `json:"capped"`
+	Scenario   string            `json:"scenario"`
+	World      string            `json:"world"`
+	Executions int64             `json:"executions"`
+	Points     int64             `json:"points"`
+	MaxPoints  int               `json:"max_points"`
+	Outcomes   int               `json:"distinct_outcomes"`
+	BoundDone  int               `json:"bound_completed"`
+	Capped     bool              `json:"capped"`
 	Violation  *engine.Violation `json:"violation,omitempty"`
-	Sample     []string         `json:"sample,omitempty"`
+	Sample     []string          `json:"sample,omitempty"`
 }
 
 // c07Sub runs one (scenario, world) job in a worker process: verifmc -sub c07 <scenario> <kind> <bound> <maxexec>
